@@ -1040,12 +1040,9 @@ def resolve_case(world, d, eb, ec, em, ech, entry, spelling="absolute", as_str=F
     arg = pstr if as_str else Path(pstr)
     kw = {} if em else dict(nc=world.nc, ns=world.ns, fs=FS)
     obs = {"problems": []}
-    # what the constructor's own existence tests see (the model's inputs): the .meta entry point looks for
-    # <meta name>.with_suffix('.bin'/'.cbin') only; the .ch / .meta companions are looked up UUID-aware
-    if entry == 2:
-        obs["seen"] = [int(target.with_suffix(".bin").exists()), int(target.with_suffix(".cbin").exists()), em, ech]
-    else:
-        obs["seen"] = [eb, ec, em, ech]
+    # the model's existence inputs: since f538cdf every lookup of the constructor (data files from the .meta entry
+    # point, .meta and .ch companions) goes through the UUID-aware _get_companion_file, so they are plain existence
+    obs["seen"] = [eb, ec, em, ech]
     old_cwd = os.getcwd()
     try:
         if cwd is not None:
@@ -1081,15 +1078,39 @@ def resolve_case(world, d, eb, ec, em, ech, entry, spelling="absolute", as_str=F
             if not ok:
                 obs["problems"].append("opened through %r but shape %s / content differ from the recording %s" % (
                     pstr, tuple(sr.shape) if hasattr(sr, "shape") else None, (world.ns, world.nc)))
-            # a compressed recording that the reader opened must also decompress (same companions)
-            if ok and layout != "plain" and sr.is_mtscomp and em:
+            # a compressed recording that the reader opened must also verify and decompress with the same companions,
+            # whatever the naming layout; in place, the header that is removed is the one that was used
+            if ok and sr.is_mtscomp and em:
+                # the folder as the reader sees it (the folder of links for the symlinked-files spelling)
+                edir = Path(os.path.abspath(os.path.join(str(cwd) if cwd is not None else ".", os.path.dirname(pstr))))
+                ecbin, ech_ = edir / fp["cbin"].name, edir / fp["ch"].name
                 try:
+                    if sr.verify_hash() is not True:
+                        obs["problems"].append("verify_hash() of the opened compressed recording is not True")
                     got = sr.decompress_to_scratch(scratch_dir=d / "scratch")
                     if Path(got).read_bytes() != world.orig[1]:
                         obs["problems"].append("decompress_to_scratch of the opened recording is not the original binary")
-                except FileNotFoundError as e:
-                    obs["uuid_decompress"] = "Reader(%r) opened the compressed recording but decompress_to_scratch raised %r" % (
-                        pstr, e)
+                    got = sr.decompress_file(keep_original=True, out=d / "decompressed_copy.bin", n_threads=1)
+                    if Path(got).read_bytes() != world.orig[1] or not ecbin.exists() or not ech_.exists():
+                        obs["problems"].append("decompress_file(keep_original=True) did not produce the original binary "
+                                               "next to the intact pair")
+                    others = {q.name for q in edir.iterdir() if q.is_file()} - {ecbin.name, ech_.name}
+                    got = sr.decompress_file(keep_original=False, overwrite=True, n_threads=1)
+                    after = {q.name for q in edir.iterdir() if q.is_file()}
+                    if Path(got).read_bytes() != world.orig[1]:
+                        obs["problems"].append("decompress_file(keep_original=False) did not produce the original binary")
+                    if os.path.lexists(ecbin) or os.path.lexists(ech_):
+                        obs["problems"].append("decompress_file(keep_original=False) left %s behind" % [
+                            q.name for q in (ecbin, ech_) if os.path.lexists(q)])
+                    if not others <= after:
+                        obs["problems"].append("decompress_file(keep_original=False) removed other files: %s" % sorted(others - after))
+                    if not os.path.samefile(str(sr.file_bin), str(got)) or tuple(sr.shape) != (world.ns, world.nc) or \
+                            not sr.is_open or not np.array_equal(sr._raw[:], world.D[1]):
+                        obs["problems"].append("after decompress_file(keep_original=False) the reader does not expose the "
+                                               "recording on the new binary")
+                except Exception as e:
+                    obs["problems"].append("Reader(%r) opened the compressed recording (naming %s) but verify / decompress "
+                                           "raised %s %r" % (pstr, layout, type(e).__name__, e))
             sr.close()
         return obs
     finally:
@@ -1293,14 +1314,9 @@ def _exercise(ctx, root):
                                 shutil.rmtree(extra, ignore_errors=True)
                         if obs is None:
                             continue
-                        uuid_split = lay in ("distinct_uuids", "uuid_on_data_only", "uuid_on_companions_only")
                         if in_domain and obs["outcome"] not in (1, 2):
                             ctx.fail("Reader(%s, %s, naming %s) did not open the recording (outcome %s)" % (
-                                desc["entry"], sp, lay, obs["outcome"]), desc,
-                                {"kind": "uuid_meta_entry" if (uuid_split and entry == 2 and obs["outcome"] == 3)
-                                 else "resolve"})
-                        if obs.get("uuid_decompress"):
-                            ctx.fail(obs["uuid_decompress"], desc, {"kind": "uuid_decompress" if uuid_split else "resolve"})
+                                desc["entry"], sp, lay, obs["outcome"]), desc, {"kind": "resolve"})
                         for p in obs["problems"]:
                             ctx.fail(p, desc, {"kind": "resolve"})
                         seb, sec, sem, sech = obs["seen"]
